@@ -41,6 +41,9 @@ class C06(core.Check):
                                            vol=rng.choice([12, 16]) if iso else rng.choice([4, 8, 12]), lengths=[30, 60, 90, 120],
                                            isolated=iso, leverage=rng.choice([50, 100, 125]) if iso else None,
                                            kinds=('futures',) if iso else ('futures', 'futures', 'spot'), force=force))
+            if out[-1]['kind'] == 'futures' and rng.random() < 0.12:
+                # a maker rebate (negative fee rate): the wallet and the trade log read the same signed setting
+                out[-1]['fee'] = -1 / 2048
         return out
 
     def correspondence(self, res, boost):
